@@ -48,7 +48,7 @@ RULE = ('one case = one request line: a molecule in a concrete numbering / dict 
         'implementation\'s actual output for one conversion (kekule, every enumerated Kekulé form (<= 48), thiele with and without '
         'tautomer fixing, second applications, the same after a random renumbering), or one row of a decision table. Molecules: '
         'hand-made charged / quinoid / mis-drawn rings, test/arenes.sdf, test/heterocycles_charges.smi, other test/*.sdf, sampled '
-        'corpus SMILES (as parsed: aromatic form), every free polyhex benzenoid with <= 4 (quick) / 6 (thorough) hexagons and '
+        'corpus SMILES (as parsed: aromatic form), every free polyhex benzenoid with <= 5 (quick) / 6 (thorough) hexagons and '
         'random aza variants, every five-membered ring over {C,N,NH,O,S} and six-membered ring over {C,N,NH+,O+} (aromatic form, '
         'one per rotation/reflection class), generated Kekulé structures (fused 5/6-ring skeletons, random maximal matching, '
         'unmatched atoms become pyrrole-like hetero atoms / exocyclic C=X / carbanions, matched atoms C / pyridine N / pyridinium '
@@ -336,7 +336,7 @@ def gen_kekule(rng):
                 kind[v] = 'C'
         else:
             if deg[v] == 3:
-                kind[v] = rng.choice(['N3', 'N3', 'N3', 'B3', 'P3'])
+                kind[v] = rng.choice(['N3', 'N3', 'N3', 'B3'])   # (three-connected ring P is ambiguous P(III)/P(V)H by design: design/C05.md §4)
             elif t < 0.30:
                 kind[v] = rng.choice(['NH', 'NH', 'NMe'])
             elif t < 0.45:
@@ -1127,23 +1127,23 @@ def correspond(ctx):
             m = molgen.parse(s)
             if m is not None:
                 mols.append((f'heterocycles_charges.smi[{i}]', m))
-    ctx.notes.append(f'exhaustive sub-domains among the molecules: all free polyhex benzenoids with <= {4 if ctx.quick else 6} '
+    ctx.notes.append(f'exhaustive sub-domains among the molecules: all free polyhex benzenoids with <= {5 if ctx.quick else 6} '
                      'hexagons; all five-membered monocycles over {C,N,NH,O,S} and six-membered over {C,N,NH+,O+} up to '
                      'rotation/reflection')
-    for cells in polyhexes(4 if ctx.quick else 6):
+    for cells in polyhexes(5 if ctx.quick else 6):
         mols.append((f'benzenoid:{len(cells)}hex:{cells}', benzenoid(cells)))
         for j in range(1 if ctx.quick else 3):
             mols.append((f'aza-benzenoid:{len(cells)}hex:{cells}#{j}', benzenoid(cells, rng, 0.25)))
     for size in (5, 6):
         for name, m in hetero_monocycles(size):
             mols.append((f'heterocycle{size}:{name}', m))
-    mols += molgen.corpus(rng, 220 if ctx.quick else 4200)
-    n_gen = 260 if ctx.quick else 2500
+    mols += molgen.corpus(rng, 350 if ctx.quick else 4200)
+    n_gen = 450 if ctx.quick else 2500
     for i in range(n_gen):
         m = gen_kekule(rng)
         if m is not None:
             mols.append((f'gen-kekule[{i}]', m))
-    for i in range(160 if ctx.quick else 1500):
+    for i in range(240 if ctx.quick else 1500):
         wild = i % 2 == 1
         try:
             m = gen_arom(rng, wild)
